@@ -373,6 +373,7 @@ def frozen(ctx):
     seen = set()
     todo = ['schema::self_referential::SchemaNode', 'schema::self_referential::Schema']
     hits = []
+    refs = []
     while todo:
         a = todo.pop()
         if a in seen or a not in f.adts:
@@ -383,10 +384,17 @@ def frozen(ctx):
                 ty = fl['ty']
                 if any(k in ty for k in IMUT):
                     hits.append('%s.%s: %s' % (a.rsplit('::', 1)[1], fl['name'], ty))
+                # what lives inside the node storage points at other nodes through NodeRef (a raw pointer), never
+                # through `&SchemaNode`: freeze still writes into the storage (lookup tables, one union after another)
+                # after such a reference would have been created, which invalidates it
+                if re.search(r"&(?:'\w+ )?(?:mut )?schema::self_referential::(SchemaNode|Union|Record|RecordField|Enum|Decimal)\b", ty) and a != 'schema::self_referential::Schema':
+                    refs.append('%s.%s: %s' % (a.rsplit('::', 1)[1], fl['name'], ty[:80]))
                 for other in f.adts:
                     if other in ty and other not in seen:
                         todo.append(other)
     ctx.ob('FROZEN', 'no-interior-mutability', not hits and len(seen) >= 8, None, 'types reachable from SchemaNode/Schema: %d; interior mutability: %s' % (len(seen), hits or 'none'))
+    ctx.ob('FROZEN', 'nodes-point-at-nodes-through-NodeRef-only', not refs and len(seen) >= 8, None,
+           'plain references to nodes held inside the node storage: %s (types reachable from SchemaNode: %d)' % (refs or 'none', len(seen)))
     for tr in ('core::marker::Sync', 'core::marker::Send'):
         im = [i for i in f.impls if i.get('trait') == tr and strip_generics(i['self_ty']).startswith(SR + 'NodeRef')]
         ok = len(im) == 1 and any(re.search(r'\bT: (core::marker::)?Sync\b', p) for p in im[0]['predicates'])
